@@ -1,4 +1,5 @@
 import LyModel.Text.JsonText
+import LyModel.Generated.LexConsts
 /-!
 # `lyjson_string` with its output buffer made explicit
 
@@ -12,8 +13,8 @@ the run return `none`.  `Props/C05.lean` proves it never does and that the value
 namespace LyModel.Lex.JsonStrBuf
 open LyModel LyModel.Utf8 LyModel.JsonText
 
-def BUF_START : Nat := 24      -- LYJSON_STRING_BUF_START
-def BUF_STEP : Nat := 128      -- LYJSON_STRING_BUF_STEP
+def BUF_START : Nat := Generated.LYJSON_STRING_BUF_START      -- read off json.h by the translator (24)
+def BUF_STEP : Nat := Generated.LYJSON_STRING_BUF_STEP        -- (128)
 
 structure St where
   /-- `buf != NULL` -/
